@@ -70,8 +70,8 @@ func c05Body(c *vk.Ctx, cs hCase) {
 					if !st.accepted || st.prevName == pn || st.succeeded[pn] {
 						continue
 					}
-					if !pend[st.payload] && !w.sentTo(news, st, pn) {
-						continue // no longer held (handed to its destination)
+					if st.destNode != "" && st.succeeded[st.destNode] {
+						continue // handed to its destination node: the node may let go of it
 					}
 					if !w.sentTo(news, st, pn) {
 						w.s.failf("c05.epidemic-not-offered", "after %s: bundle %d is held by the node, %s is newly connected, is not the bundle's previous node and has not got it yet, but no transmission to %s was attempted", w.step, i, pn, pn)
@@ -585,8 +585,13 @@ func TestVerifC05ReportsInTransit(t *testing.T) {
 			s.logf("relay %s appears", p)
 			s.addPeer(p)
 			check("relay " + p + " appeared")
-			if cs.Algo == "epidemic" && !cs.ToNode && s.storeHas(r.ID()) && !offered(r.ID().String(), p, before) {
-				s.failf("c05.epidemic-not-offered", "relay %s is newly connected and the node holds the status-report bundle R, but R was not offered to %s", p, p)
+			// epidemic: every newly connected peer that does not have it yet (the report's destination never
+			// connects, its lifetime is an hour: nothing entitles the node to let go of it)
+			if cs.Algo == "epidemic" && !cs.ToNode && !offered(r.ID().String(), p, before) {
+				s.failf("c05.epidemic-not-offered", "relay %s is newly connected and does not have the status-report bundle R (in transit, lifetime 1 h, destination not connected), but R was not offered to %s (R still in the store: %v)", p, p, s.storeHas(r.ID()))
+			}
+			if cs.Algo == "epidemic" && !xDropOK && !offered(x.ID().String(), p, before) {
+				s.failf("c05.epidemic-not-offered", "relay %s is newly connected and does not have the data bundle X, but X was not offered to %s (X still in the store: %v)", p, p, s.storeHas(x.ID()))
 			}
 			s.logf("retry tick")
 			s.tickPending()
